@@ -232,6 +232,11 @@ var c17Cycles = []c17Cyc{
 	{"BEGIN { s = [1]; t = [s, [s, [s]]]; print t }", "[[1], [[1], [[1]]]]\n"},
 	{"BEGIN { e = []; t = [e, [e]]; print t }", "[[], [[]]]\n"},
 	{"BEGIN { e = {}; t = [e, {k: e}]; print t }", "[{}, {\"k\": {}}]\n"},
+	// views of an ancestor's storage that were shortened and regrown in place are not the ancestor
+	{"BEGIN { a = []; a.push(1); a.push(2); a.push(3); b = a; b.popfirst(); b.push(9); a[0] = b; print a }", "[[2, 3, 9], 2, 3]\n"},
+	{"BEGIN { a = []; a.push([1]); a.push([2]); b = a; b.popfirst(); b.push(9); a[0] = b; print a }", "[[[2], 9], [2]]\n"},
+	// a real cycle is still reported after the array grew in place
+	{"BEGIN { c = []; c.push(1); c.push(2); c.push(3); c[0] = c; c.push(4); print c }", "[<circular reference>, 2, 3, 4]\n"},
 	// a sub-slice of an ancestor's storage is not the ancestor
 	{"BEGIN { a = [[1], [2]]; x = a; x.popfirst(); a[0] = x; print a }", "[[[2]], [2]]\n"},
 }
